@@ -7,7 +7,7 @@ From Coq Require Import String.
 From Coq Require Import List NArith ZArith Lia Bool Arith.
 From Coq Require Import Init.Byte.
 From FFS Require Import Base.Res Base.Bytes Base.Lit Base.Keccak.
-From FFS Require Import Keystore.Json Keystore.Prims Keystore.Model Keystore.Spec Keystore.ReadTypes.
+From FFS Require Import Keystore.Json Keystore.Prims Keystore.Model Keystore.Spec Keystore.ReadTypes Keystore.DeepKinds.
 Import ListNotations.
 
 (* JSON trees as written by the harness: text in the byte-DSL *)
@@ -110,7 +110,11 @@ Definition check_case (fill : byte) (c : case) : N :=
             | None => 12                                      (* a key out of a document that is not JSON *)
             | Some d =>
                 let t := jexpand d in
-                if v3_wellformed t then
+                (* a key out of a document with a V3 member of the wrong JSON kind / non-hex / non-integer
+                   text below the top level (Keystore/DeepKinds.v, a predicate on the tree that does not
+                   use the model's decoder; TotalProofs9.deep_struct_rejected) *)
+                if deep_struct_bad t then 15
+                else if v3_wellformed t then
                   (* strictly formed document: the standard itself decides *)
                   match v3_decrypt_gen false P t pw with
                   | Ok k => if negb (bytes_eqb k key) then 12  (* foreign key *)
@@ -153,3 +157,14 @@ Fixpoint mismatches_go (i : N) (l : list case) : list (N * N) :=
       if (r =? 0)%N then mismatches_go (i + 1) t else (i, r) :: mismatches_go (i + 1) t
   end.
 Definition mismatches (l : list case) : list (N * N) := firstn 20 (mismatches_go 0 l).
+
+(* self-test of oracle 15 (wave 6): a hypothetical implementation that returns a key for
+   {"crypto":{"mac":0}} resp. for a top-level array is reported with code 15; the real outcome (an error)
+   is agreement *)
+Example oracle15_selftest :
+  let T := {| t_scrypt := []; t_pbkdf2 := []; t_aes := []; t_num := []; t_uuid := [] |} in
+  let d := DObj [(BLit "63727970746f", DObj [(BLit "6d6163", DNum (BLit "30"))])] in
+  check_case x00 (CRead T (Some d) (BLit "") 0%nat (BLit "")) = 15 /\
+  check_case x00 (CRead T (Some d) (BLit "") 1%nat (BLit "")) = 0 /\
+  check_case x00 (CRead T (Some (DArr [])) (BLit "") 0%nat (BLit "")) = 15.
+Proof. vm_compute. repeat split; reflexivity. Qed.
